@@ -1,9 +1,181 @@
-From Coq Require Import List String.
-From SFC.Base Require Import Res.
-From SFC.Lex Require Import Lexer Untok.
+(** C13 - Name substitution is hygienic and simultaneous.  Property theorems only.
+    Model: Lexer.v (one logical line of ASCII Python 3.12 as [tokenize] reports it), Untok.v
+    (compat-mode [untokenize]; [list_tokens], [replace_token], [replace_lookup] =
+    [utils.replace_token_from_lookup]), Wf.v (decidable well-formedness for re-lexing).
+    Proofs: LexProofs.v, RelexProofs.v, HygieneProofs.v, ValueProofs.v.
+
+    Why [ops_safe] holds for syntactically valid expressions: two operator tokens that the
+    lexer would fuse when abutted ([*] [*], [<] [=], [.] [.] [.], [-] [>], [:] [=], [!] [=], and
+    an operator followed by [=]) never stand next to each other in Python's expression grammar,
+    and a period directly before a digit-initial NUMBER is not an attribute access; the
+    check measures it on every generated input (coverage key ops_unsafe).
+    Trusted, not proved: Python's parser is a function of the token sequence, so the renamed
+    text parses to the renamed AST (C13_value is stated on the AST of Base/Expr.v). *)
+From Coq Require Import List String Ascii Bool PrimFloat Reals.
+From SFC.Base Require Import Res Expr.
+From SFC.Lex Require Import Lexer Untok Wf LexProofs RelexProofs HygieneProofs ValueProofs FuelProofs.
 Import ListNotations.
 Local Open Scope string_scope.
 
-Example C13_doctest_1 : replace_token "m_x =(x - x_1)" "x" "b" = Ok "m_x =(b -x_1 )".
-Proof. vm_compute. reflexivity. Qed.
-Print Assumptions C13_doctest_1.
+(** The names reported for a text are exactly its NAME tokens, in order of appearance. *)
+Theorem C13_list : forall s,
+  list_tokens s = match lex s with Ok ts => Ok (map snd (filter is_name ts)) | Err e => Err e end.
+Proof. reflexivity. Qed.
+Print Assumptions C13_list.
+
+(** Maximal munch: an identifier-shaped text [n] followed by nothing or by a character that
+    cannot continue an identifier is read as the single token NAME [n]; in particular a name
+    is never split, and [n] followed by identifier characters is a different, longer name.
+    (A quote directly after r, b, u, br, rb, f, ... starts a prefixed string instead.) *)
+Theorem C13_munch : forall n X ts,
+  ident_shaped n = true ->
+  match X with
+  | EmptyString => True
+  | String c _ => is_ident_char c = false /\ (is_quote c = true -> prefix_kind n = None)
+  end ->
+  next_token (n ++ X) = Ok ((NAME, n), X) /\
+  (lex (n ++ X) = Ok ts -> exists ts', ts = (NAME, n) :: ts').
+Proof. intros n X ts Hn HX. split; [now apply name_munch|now apply lex_starts_with_name]. Qed.
+Print Assumptions C13_munch.
+
+(** Every token is cut out of the input: its text is a non-empty prefix of what was left to
+    read (so token texts are substrings of the line, in order), and the fuel of the main loop
+    is never exhausted ([OutOfFuel] is not an outcome of [lex]). *)
+Theorem C13_token_prefix : forall s k v rest, next_token s = Ok ((k, v), rest) -> s = v ++ rest /\ v <> "".
+Proof. exact next_token_split. Qed.
+Print Assumptions C13_token_prefix.
+
+Theorem C13_fuel : forall s, lex s <> Err OutOfFuel.
+Proof. exact lex_fuel. Qed.
+Print Assumptions C13_fuel.
+
+(** Hygiene and simultaneity at token level: the result is the untokenized token list in which
+    exactly the NAME tokens whose text is a key are replaced, each once (the replacement is not
+    looked up again, so a swap swaps); NUMBER/STRING/OP/COMMENT tokens and names that are not
+    keys - longer names included - are untouched. *)
+Theorem C13_hygiene : forall m s,
+  replace_lookup m s = match lex s with Ok ts => Ok (untok (map (ren m) ts)) | Err e => Err e end.
+Proof. reflexivity. Qed.
+Print Assumptions C13_hygiene.
+
+Theorem C13_ren_exact : forall m,
+  (forall t, fst (ren m t) = fst t) /\
+  (forall t, fst t <> NAME -> ren m t = t) /\
+  (forall v, assoc v m = None -> ren m (NAME, v) = (NAME, v)) /\
+  (forall v w, assoc v m = Some w -> ren m (NAME, v) = (NAME, w)) /\
+  (forall ts, names_of (map (ren m) ts) = map (mfun m) (names_of ts)).
+Proof.
+  intros m. repeat split.
+  - apply ren_kind.
+  - apply ren_other.
+  - apply ren_name_out.
+  - apply ren_name_in.
+  - apply names_of_ren.
+Qed.
+Print Assumptions C13_ren_exact.
+
+Theorem C13_swap : forall a b, a <> b ->
+  ren [(a, b); (b, a)] (NAME, a) = (NAME, b) /\ ren [(a, b); (b, a)] (NAME, b) = (NAME, a).
+Proof. exact ren_swap. Qed.
+Print Assumptions C13_swap.
+
+Theorem C13_single : forall s a b, replace_token s a b = replace_lookup [(a, b)] s.
+Proof. exact replace_token_single. Qed.
+Print Assumptions C13_single.
+
+(** Re-lexing.  [line body cmt] is the token list of an unindented line with content tokens
+    [body] and optional trailing comment; [wf_body]: every token is what the lexer reads from
+    its own text, no operator fuses with its successor ([ops_safe]), brackets close. *)
+Theorem C13_relex : forall body cmt,
+  wf_body body = true -> wf_comment cmt = true -> lex (untok (line body cmt)) = Ok (line body cmt).
+Proof. exact relex_line. Qed.
+Print Assumptions C13_relex.
+
+Theorem C13_relex_renamed : forall m body cmt,
+  wf_body body = true -> wf_comment cmt = true -> ident_range m = true ->
+  lex (untok (map (ren m) (line body cmt))) = Ok (map (ren m) (line body cmt)).
+Proof. exact relex_renamed. Qed.
+Print Assumptions C13_relex_renamed.
+
+(** For the implementation's function: a line that lexes to a well-formed operator-safe token
+    list (INDENT/DEDENT aside) is rewritten to a text that lexes to exactly the renamed list. *)
+Theorem C13_relex_replace : forall s ts body cmt m,
+  lex s = Ok ts -> strip ts = line body cmt ->
+  wf_body body = true -> wf_comment cmt = true -> ident_range m = true ->
+  exists out, replace_lookup m s = Ok out /\ lex out = Ok (map (ren m) (line body cmt)).
+Proof. exact relex_replace. Qed.
+Print Assumptions C13_relex_replace.
+
+(** [ops_safe] is genuinely needed: the operators of [a* *b] fuse in the output. *)
+Theorem C13_ops_safe_needed :
+  let body := [(NAME, "a"); (OP, "*"); (OP, "*"); (NAME, "b")] in
+  lex "a* *b" = Ok (line body None) /\
+  forallb wf_tok body = true /\ ops_safe body = false /\
+  replace_lookup [] "a* *b" = Ok "a **b " /\
+  lex "a **b " = Ok (line [(NAME, "a"); (OP, "**"); (NAME, "b")] None).
+Proof. vm_compute. repeat split. Qed.
+Print Assumptions C13_ops_safe_needed.
+
+(** Value: a renaming that does not merge two names of the expression admits a renamed
+    environment, and under any environment that agrees through the renaming the renamed
+    expression has the original's value (reals and IEEE doubles with Python's exceptions). *)
+Theorem C13_value : forall (L : Type) (lit : L -> R) (m : list (string * string)) (e : expr L),
+  inj_on (mfun m) (names e) ->
+  names (rename (mfun m) e) = map (mfun m) (names e) /\
+  (forall rho : string -> R, exists rho', forall x, List.In x (names e) -> rho' (mfun m x) = rho x) /\
+  (forall rho rho' : string -> R, (forall x, List.In x (names e) -> rho' (mfun m x) = rho x) ->
+     evalR lit rho' (rename (mfun m) e) = evalR lit rho e).
+Proof.
+  intros L lit m e Hinj. split; [apply names_rename|]. split.
+  - intros rho. now apply env_exists.
+  - intros rho rho'. apply value_R.
+Qed.
+Print Assumptions C13_value.
+
+Theorem C13_value_float : forall (m : list (string * string)) (e : expr float),
+  inj_on (mfun m) (names e) ->
+  (forall rho : string -> option float, exists rho', forall x, List.In x (names e) -> rho' (mfun m x) = rho x) /\
+  (forall rho rho' : string -> option float, (forall x, List.In x (names e) -> rho' (mfun m x) = rho x) ->
+     evalF rho' (rename (mfun m) e) = evalF rho e).
+Proof.
+  intros m e Hinj. split.
+  - intros rho. now apply env_exists.
+  - intros rho rho'. apply value_F.
+Qed.
+Print Assumptions C13_value_float.
+
+(** The non-merging hypothesis is needed: x - y under x := y. *)
+Theorem C13_merge_refuted :
+  let e : expr unit := ESub (EVar "x") (EVar "y") in
+  let f := mfun [("x", "y")] in
+  let rho := fun v : string => if String.eqb v "x" then 1%R else 0%R in
+  ~ inj_on f (names e) /\ forall rho', evalR (fun _ => 0%R) rho' (rename f e) <> evalR (fun _ => 0%R) rho e.
+Proof. exact merge_changes_value. Qed.
+Print Assumptions C13_merge_refuted.
+
+(** Non-vacuity: the doctest strings of utils.py, and a realistic equation line whose token
+    list satisfies every hypothesis of C13_relex_replace. *)
+Example C13_doctests :
+  replace_token "m_x =(x - x_1)" "x" "b" = Ok "m_x =(b -x_1 )" /\
+  replace_token "Little Bunny Foofoo says foo to you" "foo" "hello" = Ok "Little Bunny Foofoo says hello to you " /\
+  replace_token "a = ""a fool and his money""" "a" "x" = Ok "x =""a fool and his money""" /\
+  replace_lookup [("y", "H_y"); ("x", "H_x")] "y = x" = Ok "H_y =H_x " /\
+  list_tokens "x = foo + cat()" = Ok ["x"; "foo"; "cat"] /\
+  list_tokens "2 + 3" = Ok [].
+Proof. vm_compute. repeat split. Qed.
+Print Assumptions C13_doctests.
+
+Example C13_realistic :
+  let s := "  HH__F = LAG_F(k-1)+0.8*(x1 - e5)/max(x, 1e-5, 0x1f) ** 2 >= [1.0, .5j]*20 # note" in
+  let body := [(NAME, "HH__F"); (OP, "="); (NAME, "LAG_F"); (OP, "("); (NAME, "k"); (OP, "-"); (NUMBER, "1"); (OP, ")");
+               (OP, "+"); (NUMBER, "0.8"); (OP, "*"); (OP, "("); (NAME, "x1"); (OP, "-"); (NAME, "e5"); (OP, ")");
+               (OP, "/"); (NAME, "max"); (OP, "("); (NAME, "x"); (OP, ","); (NUMBER, "1e-5"); (OP, ","); (NUMBER, "0x1f");
+               (OP, ")"); (OP, "**"); (NUMBER, "2"); (OP, ">="); (OP, "["); (NUMBER, "1.0"); (OP, ","); (NUMBER, ".5j");
+               (OP, "]"); (OP, "*"); (NUMBER, "20")] in
+  let m := [("x", "e5"); ("e5", "x"); ("x1", "HH__x1"); ("k", "t"); ("LAG", "nope"); ("e", "nope")] in
+  (exists ts, lex s = Ok ts /\ strip ts = line body (Some "# note")) /\
+  wf_body body = true /\ wf_comment (Some "# note") = true /\ ident_range m = true /\
+  replace_lookup m s =
+    Ok "HH__F =LAG_F (t -1 )+0.8 *(HH__x1 -x )/max (e5 ,1e-5 ,0x1f )**2 >=[1.0 ,.5j ]*20 # note".
+Proof. vm_compute. repeat split. eexists. split; reflexivity. Qed.
+Print Assumptions C13_realistic.
